@@ -110,3 +110,125 @@ def check_log_untouched(ctx, log, label="operand-untouched"):
             now = elems(out)
             for i, (a, b) in enumerate(zip(now, orig)):
                 ctx.check(f"{label}:{kind}#{k}[{i}]", ctx.eq(a, b))
+
+
+# ------------------------------------------------------------------------------------------------
+# design spaces with symbolic bounds
+# ------------------------------------------------------------------------------------------------
+INF = float("inf")
+KINDS = {"B": "bounded l<u (symbolic)", "E": "equal bounds l==u (symbolic)", "U": "unbounded", "L": "lower bound only", "R": "upper bound only",
+         "C": "bounded, concrete [-1, 3]", "D": "bounded, concrete [1/2, 2]"}
+CONCRETE = {"C": (-1.0, 3.0), "D": (0.5, 2.0)}
+
+
+class SpaceInfo:
+    """Oracle-side description of a design space built by :func:`build_space` (flat, in variable order)."""
+
+    def __init__(self):
+        self.names, self.sizes, self.lb, self.ub, self.kind, self.is_int = [], [], [], [], [], []
+
+    @property
+    def n(self):
+        return len(self.lb)
+
+    def normalized(self, j, int_norm=False):
+        """Component j is mapped onto [0,1] iff both bounds are finite and it is a float (or integer normalization is on)."""
+        return self.kind[j] in ("B", "E", "C", "D") and (not self.is_int[j] or int_norm)
+
+    def phys(self, ctx, xn, int_norm=False, rounding=True):
+        """Physical point of a normalized point (explicit per-component formula)."""
+        out = []
+        for j in range(self.n):
+            v = xn[j]
+            if self.normalized(j, int_norm):
+                v = self.lb[j] + v * (self.ub[j] - self.lb[j])
+            if self.is_int[j] and rounding:
+                v = rint(ctx, v)
+            out.append(v)
+        return out
+
+    def scale(self, j, int_norm=False):
+        return (self.ub[j] - self.lb[j]) if self.normalized(j, int_norm) else 1.0
+
+
+def rint(ctx, v):
+    from symgem.core import sym_rint
+
+    return sym_rint(v) if ctx.symbolic else float(np.rint(v))
+
+
+def build_space(ctx, layout, prefix="", assume_order=True):
+    """Build a real ``DesignSpace`` from ``layout`` = [(name, "float"|"integer", kinds or int-bounds), ...].
+
+    Float variables: ``kinds`` is a string over B,E,U,L,R (one letter per component); finite bounds are symbolic
+    reals with ``l < u`` (B) or ``l == u`` (E).  Integer variables: a list of concrete (lb, ub) integer pairs.
+    Symbolically the bounds are written into ``Variable.__dict__`` (pydantic validation needs machine numbers);
+    concretely the public ``add_variable`` is used with the model values.
+    """
+    from gemseo.algos.design_space import DesignSpace
+
+    ds = DesignSpace()
+    info = SpaceInfo()
+    for name, typ, spec in layout:
+        size = len(spec)
+        lbs, ubs, kinds = [], [], []
+        if typ == "integer":
+            for (a, b) in spec:
+                lbs.append(float(a))
+                ubs.append(float(b))
+                kinds.append("B" if a < b else "E")
+            ds.add_variable(name, size=size, type_="integer", lower_bound=np.array(lbs), upper_bound=np.array(ubs))
+        else:
+            for c, k in enumerate(spec):
+                if k in CONCRETE:
+                    lbs.append(CONCRETE[k][0])
+                    ubs.append(CONCRETE[k][1])
+                    kinds.append(k)
+                    continue
+                l = ctx.real(f"{prefix}l_{name}{c}") if k in "BEL" else -INF
+                if k == "E":
+                    u = l
+                elif k in "BR":
+                    u = ctx.real(f"{prefix}u_{name}{c}")
+                else:
+                    u = INF
+                if k == "B" and assume_order:
+                    ctx.assume(l < u)
+                lbs.append(l)
+                ubs.append(u)
+                kinds.append(k)
+            if ctx.symbolic:
+                ph_l = np.array([0.0 if k in "BELCD" else -INF for k in spec])
+                ph_u = np.array([(1.0 if k != "E" else 0.0) if k in "BERCD" else INF for k in spec])
+                ds.add_variable(name, size=size, lower_bound=ph_l, upper_bound=ph_u)
+                var = ds._variables[name]
+                var.__dict__["lower_bound"] = SymArray(lbs)
+                var.__dict__["upper_bound"] = SymArray(ubs)
+            else:
+                ds.add_variable(name, size=size, lower_bound=np.array(lbs, dtype=float), upper_bound=np.array(ubs, dtype=float))
+        info.names.append(name)
+        info.sizes.append(size)
+        info.lb += lbs
+        info.ub += ubs
+        info.kind += kinds
+        info.is_int += [typ == "integer"] * size
+    return ds, info
+
+
+def install_np_array_stub(ctx):
+    """``HashableNdarray`` copies its key with ``numpy.array``: keep the SymArray subclass (value-preserving copy)."""
+    if not ctx.symbolic:
+        return
+    import gemseo.algos.hashable_ndarray as hn
+
+    def np_array(a, *args, **kw):
+        if isinstance(a, SymArray):
+            return a.copy()
+        return np.array(a, *args, **kw)
+
+    ctx.patch(hn, "np_array", np_array)
+
+
+def db_items(database):
+    """[(key array, outputs dict)] in insertion order."""
+    return [(k.wrapped_array, v) for k, v in database.items()]
